@@ -111,6 +111,22 @@ def _exe(ctx, cfg="base"):
     return ctx.oracle(cfg, defs=("ORACLE_FP",), sources=("oracle.c", "ops_bn.c", "ops_fp.c"), tag="_fp")
 
 
+def root_sweep(rng, p, count):
+    """the value-producing unary functions that are not modelled digit by digit (roots, inverses): each on squares / cubes / arbitrary
+    residues with the result in a separate object and written over the operand, for every prime (the algorithm depends on p mod 8 / 9)"""
+    out = []
+    for _ in range(count):
+        a = rng.choice([rng.bits(256) % p, rng.bits(64), p - 1 - rng.bits(8), 2, 3, 4])
+        for alias in (0, 1):
+            out.append("fp1 srt %d %x" % (alias, a * a % p))
+            out.append("fp1 srt %d %x" % (alias, a % p))
+            out.append("fp1 crt %d %x" % (alias, pow(a, 3, p)))
+            out.append("fp1 crt %d %x" % (alias, a % p))
+            out.append("fp1 %s %d %x" % (rng.choice(["inv", "inv_basic", "inv_binar", "inv_monty", "inv_exgcd", "inv_divst", "inv_lower"]), alias,
+                                         a % p))
+    return out
+
+
 def _param(exe, pid):
     out = subprocess.run([exe], input="fp_param %d\n" % pid, stdout=subprocess.PIPE, stderr=subprocess.DEVNULL, text=True, timeout=60).stdout
     kv = dict(t.split("=") for t in out.split()[1:] if "=" in t)
@@ -129,6 +145,7 @@ def streams(ctx, scale=1):
                 continue
             p = int(kv["p"], 16)
             lines.append("fp_param %d" % pid)
+            lines += root_sweep(ctx.rng, p, 12 * scale)
             lines += gen_lines(ctx.rng, p, 64, int(kv["digs"]), per)
         res.append({"name": "fp-" + cfg, "cfg": cfg, "exe": exe, "lines": lines})
     return res
